@@ -30,7 +30,13 @@ pub struct Case {
     /// same projective map with a homogeneous coordinate other than 1
     #[serde(default)]
     pub wscale: u8,
+    /// the field handed to the mesher is the shape's field times a positive
+    /// constant (same surface, same solid): 1, 1e-2, 1e-4, 1e-6, 64, 1e4
+    #[serde(default)]
+    pub fscale: u8,
 }
+
+const FSCALE: [f32; 6] = [1.0, 1e-2, 1e-4, 1e-6, 64.0, 1e4];
 
 fn w2m_of(case: &Case) -> nalgebra::Matrix4<f32> {
     world_to_model(&case.xform) * [1.0f32, 2.0, 0.5, 4.0][case.wscale as usize % 4]
@@ -282,7 +288,14 @@ impl RefGrid {
 fn run<F: MathFunction + RenderHints + Clone>(case: &Case, cx: &mut Cx) -> CheckResult {
     let mut ctx = Context::new();
     let root = case.shape.build(&mut ctx);
-    let shape = Shape::<F>::new(&ctx, root).unwrap();
+    // the mesher sees the scaled field; every oracle below uses the unscaled
+    // (1-Lipschitz) one, which has the same zero set and the same sign
+    let fk = FSCALE[case.fscale as usize % FSCALE.len()];
+    let mesh_root = if fk != 1.0 { ctx.mul(root, fk).unwrap() } else { root };
+    if fk != 1.0 {
+        cx.ev.count("field_scaled_by_a_positive_constant");
+    }
+    let shape = Shape::<F>::new(&ctx, mesh_root).unwrap();
     let w2m = w2m_of(case);
     let pool = make_pool(case.threads);
     let settings = Settings {
@@ -626,14 +639,16 @@ impl Prop for P {
             any::<bool>(),
             prop_oneof![3 => Just(0u8), 2 => Just(1u8), 1 => 2u8..=5],
             prop_oneof![3 => Just(0u8), 1 => 1u8..=3],
+            prop_oneof![3 => Just(0u8), 2 => 1u8..=5],
         )
-            .prop_map(|(shape, depth, xform, jit, threads, wscale)| Case {
+            .prop_map(|(shape, depth, xform, jit, threads, wscale, fscale)| Case {
                 shape,
                 depth,
                 xform,
                 jit,
                 threads,
                 wscale,
+                fscale,
             })
             .boxed()
     }
@@ -692,6 +707,7 @@ impl Prop for P {
                         jit,
                         threads: 0,
                         wscale: 0,
+                        fscale: 0,
                     });
                 }
             }
@@ -705,6 +721,7 @@ impl Prop for P {
                 jit: false,
                 threads: 0,
                 wscale: depth % 4,
+                fscale: depth % 6,
             });
         }
         out
